@@ -68,12 +68,17 @@ def run(ctx):
         files = files[:30] + files[len(inputs):]
     npairs = 0
     for name, p in files:
-        probe = zw.run_cases([zw.enc("[unit offset]", dw=p)])[0]
-        if not probe.ok():
+        if len(ctx.violations) >= 6:
+            break                     # enough to report; on a tree this broken every further file costs minutes
+        probe = zw.run_cases([zw.enc("[entry] length", dw=p, t=30)])[0]
+        if not probe.ok() or not probe.results:
+            if probe.crash:
+                bad("`[entry] length` on %s: %s" % (name, probe.crash), {"file": p, "query": "[entry] length"})
             continue
+        cap = 40 * int(probe.results[0][0]["v"]) + 1000          # no pair yields more than a few values per DIE
         lines = []
         for _, a, b in P:
-            lines += [zw.enc(a, dw=p, t=120, max=200000), zw.enc(b, dw=p, t=120, max=200000)]
+            lines += [zw.enc(a, dw=p, t=60, max=cap), zw.enc(b, dw=p, t=60, max=cap)]
         rs = zw.run_cases(lines)
         for k, (ln, a, b) in enumerate(P):
             ra, rb = rs[2 * k], rs[2 * k + 1]
